@@ -45,13 +45,15 @@ def _private_peggen(tag, lits, regexes, seps):
 # index 4 of a regex pool is used as a separator by the generator: keep it `[ \t]*`
 REGEXES20 = [(r"\d+", ["1", "42", "7"]), (r"[a-z]+", ["ab", "x", "foo", "q"]), (r"\w+", ["a1", "zz", "x"]),
              (r"x*", ["", "x", "xx"]), (r"[ \t]*", ["", " "]), (r"[A-Z]\w*", ["Ab", "Q"]), (r"[a-c]+X", ["abX", "cX"]),
-             (r"k[0-9]?", ["k", "k1"])]
+             (r"k[0-9]?", ["k", "k1"]),
+             # exactly one group: read through the group oracle when use_regexp_group is set
+             (r"<(\w+)>", ["<ab>", "<Xy>"]), (r"(\d+)%", ["5%", "12%"])]
 LITS20 = ["begin", "End", "x", "IF", "k", "q", ";", ",", "+", "Kw", "a-B", "ñu", "x y", "and"]
 SEPS20 = [",", ";", "and", "OR", "+"]
 
 REGEXES21 = [(r"\d+", ["1", "42", "7"]), (r"[a-z]+", ["ab", "x", "foo", "q"]), (r"\w+", ["a1", "zz", "x"]),
              (r"x*", ["", "x", "xx"]), (r"[ \t]*", ["", " "]), (r"[A-Z]\w*", ["Ab", "Q"]), (r"[^;\n]+", ["a b", "x"]),
-             (r"if\b", ["if"])]
+             (r"if\b", ["if"]), (r"<(\w+)>", ["<ab>", "<x>"]), (r"(\d+)%", ["5%", "12%"])]
 LITS21 = ["a", "if", "x", "kw", "k2", "_b", ";", "+", ",", "a-b", "1a", "ñ", "x y", "in", "é1", "٣a", "a.", "=>", "b_", "end\n", "k\n", "\tb", "a$"]
 SEPS21 = [",", ";", "and", "x", "+", "_"]
 
